@@ -119,7 +119,7 @@ def large_carrier_case(draw):
             # the float comes in as a Python float, a numpy scalar, a list, an array, a constant polynomial or a
             # polynomial with float coefficients
             f = draw(st.sampled_from([0.5, -1.25, 2.0]))
-            form = draw(st.sampled_from(["pyfloat", "pyfloat", "np", "list", "array", "const-poly", "poly"]))
+            form = draw(st.sampled_from(["pyfloat", "np", "np", "list", "array", "const-poly", "poly"]))
             if form == "pyfloat":
                 val = {"t": "pyfloat", "v": f}
             elif form == "np":
@@ -171,7 +171,7 @@ def wide_carrier_case(draw):
 @st.composite
 def case_st(draw):
     pick = draw(st.integers(0, 11))
-    if pick == 0:
+    if pick in (0, 2):
         return draw(large_carrier_case())
     if pick == 1:
         return draw(wide_carrier_case())
